@@ -483,7 +483,12 @@ def parse_unpack_pattern(lhs: ast.Tuple | ast.List) -> UnpackPattern:
         else None
     )
     right = lhs.elts[len(left) + 1 :]
-    assert isinstance(starred, ast.Name | None), "Python grammar"
+    # The Python grammar allows any assignment target after the `*`, for example
+    # `a, *[b, c] = xs` or `a, *s.f = xs`. We only support plain variables.
+    if starred is not None and not isinstance(starred, ast.Name):
+        raise GuppyError(
+            UnsupportedError(starred, "Starred assignments to non-variable targets")
+        )
     return UnpackPattern(left, starred, right)
 
 
